@@ -343,7 +343,7 @@ Proof. exact time_list_ex. Qed.
    Ellipsis, None, or a tuple of them); [abs_x v] how the model reads it (index expression or sole integer array);
    [emb_index ix] an index expression of the model written as a value; [lift_norm] / [lift_res] the model's result in the
    generated functions' result type (GOk / GRaise; never GStuck = outside the translated fragment);
-   [np_plain] NumPy raised, returned a genuine scalar or an array of 1 to 3 dimensions. *)
+   [gen_getitems] a chain x[v1][v2].. of generated __getitem__ calls. *)
 From PV Require Import PData.TieLib gen.PDataGen PData.ProofsTie.
 
 (* normalize_index as the source has it = the model, for EVERY index value and every ndim *)
@@ -364,10 +364,21 @@ Print Assumptions C11_source_normalize_index_refuted.
 (* __getitem__ as the source has it (index normalisation, the s0 / fs arithmetic of the time slice, the selection of
    channel labels and metadata entries, every raise) = the model, on every array and every index value *)
 Theorem C11_source_getitem : forall x v, idx_val v = true ->
-  np_plain (np_getitem (shape x) (dat x) (abs_items v)) (abs_items v) = true ->
   gen_getitem x v = lift_res (getitem_x true x (abs_x v)).
-Proof. exact gen_getitem_tie. Qed.
+Proof. exact gen_getitem_full. Qed.
 Print Assumptions C11_source_getitem.
+(* ... in the model's own grammar, one expression and chains of expressions *)
+Theorem C11_source_getitem_model : forall x ix, gen_getitem x (emb_index ix) = lift_res (getitem x ix).
+Proof. exact gen_getitem_full_model. Qed.
+Print Assumptions C11_source_getitem_model.
+Theorem C11_source_getitems_model : forall ixs x,
+  gen_getitems x (map emb_index ixs) = lift_res (getitems true x ixs).
+Proof. exact gen_getitems_model. Qed.
+Print Assumptions C11_source_getitems_model.
+(* ... hence the generated function never leaves the translated fragment (GStuck) on an index value *)
+Theorem C11_source_getitem_not_stuck : forall x v, idx_val v = true -> gen_getitem x v <> GStuck.
+Proof. exact gen_getitem_not_stuck. Qed.
+Print Assumptions C11_source_getitem_not_stuck.
 (* every annotated array the model returns is what the source returns (no hypothesis on NumPy's result) *)
 Theorem C11_source_getitem_returns : forall x v r, idx_val v = true ->
   getitem_x true x (abs_x v) = RArr r -> gen_getitem x v = GOk (OArr r).
